@@ -7,6 +7,8 @@ import FFVerif.Lemmas.RainflowTotal
 import FFVerif.Lemmas.PeakValley
 import FFVerif.Lemmas.Table
 import FFVerif.Props.C01
+import FFVerif.Lemmas.RainflowMax
+import FFVerif.Lemmas.RainflowClosed
 namespace FF
 
 /-- cycle by cycle (hence as a multiset), the deque loop equals the three-point procedure on the
@@ -30,6 +32,14 @@ theorem C01_total (h : List Int) (hne : h ≠ []) : C01.totalOK h (rainflow h) =
     | [x], _ => simp [reversals]
     | x :: y :: rest, _ => simp [reversals]
   simp; omega
+
+/-- all clauses of the executable predicate at once, for every non-constant history (the largest
+counted range is the overall range: `C01_maxrange` in Lemmas/RainflowMax.lean; whole cycles are
+closed loops: `C01_whole_closed` in Lemmas/RainflowClosed.lean) -/
+theorem C01_all (h : List Int) (hc : isConstant h = false) :
+    C01.failing h (rainflow h) (table (rainflow h)) = [] := by
+  have hne : h ≠ [] := by intro e; subst e; simp [isConstant] at hc
+  simp [C01.failing, C01_multiset, C01_table, C01_total h hne, C01_maxrange h hc]
 
 -- non-vacuity: the ASTM E1049 figure-6 history (seven counts, one closed loop -1..3)
 example : rainflow [-2, 1, -3, 5, -1, 3, -4, 4, -2] =
